@@ -16,4 +16,4 @@ DELIVERABLES in /tmp/seed/{name}/OUT/ :
   patch.diff   — `git diff` of your source change only (must apply with `git apply` to a clean checkout of the same commit)
   demo/        — a demonstration that FAILS with the change and PASSES without it: a new test file or a tiny program plus the exact command to run it (it may add a test file to the worktree; keep it separate from patch.diff), 
   README.md    — what the change is, why it breaks the property, exactly what is needed for it to manifest, which existing test commands you ran (and that they pass with the change), and the demo commands with their observed output with and without the change.
-Verify everything yourself: (1) existing tests of the touched crate(s) pass WITH the change; (2) the demo fails WITH the change; (3) the demo passes WITHOUT it (git stash the source change). Finish by printing the README.""")
+Verify everything yourself: (1) existing tests of the touched crate(s) pass WITH the change; (2) the demo fails WITH the change; (3) the demo passes WITHOUT it. IMPORTANT: never use `git stash` (the stash is shared by all worktrees of this repository and other people are using it concurrently): to test without your change do `git diff -- <source paths> > OUT/patch.diff && git apply -R OUT/patch.diff`, and re-apply with `git apply OUT/patch.diff`. Finish by printing the README.""")
